@@ -54,10 +54,12 @@ Proof. vm_compute. reflexivity. Qed.
 (* ---- non-vacuity: a concrete run (2 workers, 5 requests: one carries an error, one fails to
    fill, one fails to write) reaches a state where done is closed, nothing was cancelled, and the
    log is as the theorems say ---- *)
+(* scheduling policy of the example run: the request source's input never stalls *)
+Definition no_stall (l : loc) : bool := match l with Src _ => true | _ => false end.
 Definition ex_reqs := [(0, false); (1, true); (2, false); (3, false); (4, false)].
 Definition ex_fill (id : nat) := negb (Nat.eqb id 2).
 Definition ex_write (id : nat) := negb (Nat.eqb id 3).
-Definition ex_final := exec (beh 2 ex_fill ex_write) (fun _ => 0) (rounds 40 12) (init 2 1 ex_reqs).
+Definition ex_final := exec (beh 2 ex_fill ex_write) (fun _ => 0) no_stall (rounds 40 12) (init 2 1 ex_reqs).
 
 Example C07_ex_reachable : reachable (beh 2 ex_fill ex_write) (init 2 1 ex_reqs) ex_final.
 Proof. apply exec_reachable. apply R0. Qed.
